@@ -40,6 +40,27 @@ var pShortUpdExcluded int
 const pKeyLateDepth = "C07:depth-lost-when-persisted-after-relock"
 
 var pKnownLateDepth = vIsKnownSuffix("depth-lost-when-persisted-after-relock")
+var pLateDepthExcluded int
+
+const pKeyUpdCount = "C07:superseded-update-record-dropped-by-compaction"
+
+var pKnownUpdCount = vIsKnownSuffix("superseded-update-record-dropped-by-compaction")
+var pUpdCountExcluded int
+
+const pKeyLateOrder = "C07:delayed-persistence-logs-later-terms-before-earlier-grant"
+
+var pKnownLateOrder = vIsKnownSuffix("delayed-persistence-logs-later-terms-before-earlier-grant")
+var pLateOrderExcluded int
+
+const pKeyLinger = "C07:released-value-lingers-when-log-is-replayed"
+
+var pKnownLinger = vIsKnownSuffix("released-value-lingers-when-log-is-replayed")
+var pLingerExcluded int
+
+const pKeyOldest = "C07:live-hold-refused-at-replay-after-older-holder-expired"
+
+var pKnownOldest = vIsKnownSuffix("live-hold-refused-at-replay-after-older-holder-expired")
+var pOldestExcluded int
 
 const pKeyUpdCreate = "C07:compaction-drops-creating-record-with-update-flag"
 
@@ -175,6 +196,21 @@ func aGenOps(t *rapid.T, e *aEnv, p aProfile, fresh *int) []aOp {
 		}
 		key = rapid.IntRange(0, 3).Draw(t, "key")
 		tk = m.keys[fmt.Sprintf("%d/%x", db, aKey(key))]
+	}
+	if p.persist && pKnownLinger && tk != nil && len(tk.holders) == 0 && tk.val != nil {
+		// known finding C07:released-value-lingers-when-log-is-replayed: the value of a key nobody holds stays until
+		// the key's last lock object is swept; the replay runs LOCK, UNLOCK, LOCK without a sweep in between, so a
+		// later hold inherits the value of a released one. While listed, a key that became free after it carried a
+		// value is not used again: the request goes to a key never used before (same value type).
+		for _, c := range tk.val.cands {
+			if c != nil {
+				*fresh++
+				key = key%3 + 3*(1+*fresh%20000)
+				tk = m.keys[fmt.Sprintf("%d/%x", db, aKey(key))]
+				pLingerExcluded++
+				break
+			}
+		}
 	}
 	client := rapid.IntRange(0, len(e.clients)-1).Draw(t, "client")
 	pickId := func(label string, holderPct, waiterPct int) int {
@@ -340,29 +376,117 @@ func aGenOps(t *rapid.T, e *aEnv, p aProfile, fresh *int) []aOp {
 			default:
 				op.E = 0
 			}
-			if pKnownUpdCreate && op.F&fUPDATE != 0 && (tk == nil || tk.holder(aLockId(op.Id)) == nil) {
+			relive := tk != nil && tk.holder(aLockId(op.Id)) != nil // re-lock or update of a live hold
+			if op.F&fSHOW != 0 && op.F&fUPDATE != 0 && tk != nil && len(tk.holders) > 0 {
+				relive = true // show+update addresses the oldest holder
+			}
+			if pKnownShortUpd && relive {
+				// known finding C07:expired-terms-record-skipped-at-load: recovery and compaction skip every record whose
+				// own terms have expired, although a hold is a sequence of records. While listed, a live hold is re-locked
+				// or updated only when none of its records can expire before the restarts: old and new terms both end
+				// later than the outage plus a margin (or never). Otherwise the request gets a fresh LockId.
+				far := func(sec int64) bool { return sec < 0 || sec > int64(off)+40 }
+				ok := op.EF&efUNLIMITED != 0 || (op.EF&efMINUTE != 0 && far(int64(op.E)*60)) || (op.EF&efMINUTE == 0 && far(int64(op.E)))
+				for _, h := range tk.holders {
+					if h.eSec >= 0 && !far(h.deadline()-e.now) {
+						ok = false
+					}
+				}
+				if !ok {
+					if op.F&fSHOW != 0 {
+						op.F &^= fUPDATE
+					}
+					if tk.holder(aLockId(op.Id)) != nil {
+						*fresh++
+						op.Id = 100 + *fresh
+					}
+					relive = false
+					pShortUpdExcluded++
+				}
+			}
+			if pKnownUpdCreate && op.F&fUPDATE != 0 && !relive {
 				// known finding C07:compaction-drops-creating-record-with-update-flag: a hold created by a request that carried
 				// the update flag loses its creating record at the next compaction once its terms changed (depth is lost)
 				op.F &^= fUPDATE
 				pUpdCreateExcluded++
 			}
-			if pKnownShortUpd || pKnownLateDepth {
-				// known findings C07:expired-terms-record-skipped-at-load and C07:depth-lost-when-persisted-after-relock:
-				// the log encodes a hold as a sequence of records that recovery filters one by one (records whose own
-				// terms have expired are skipped; a hold first persisted after a re-lock gets a single record), so
-				// re-locks and updates of a live hold do not survive a restart faithfully. While either is listed a
-				// persisted history never re-locks or updates a live hold: the request gets a fresh LockId instead.
-				if tk != nil && tk.holder(aLockId(op.Id)) != nil {
-					*fresh++
-					op.Id = 100 + *fresh
-					pShortUpdExcluded++
+			if pKnownUpdCount && relive && op.F&fUPDATE != 0 {
+				// known finding C07:superseded-update-record-dropped-by-compaction: only the last update record of a hold
+				// survives a compaction, so holders admitted under intermediate terms (a Count raised and lowered again)
+				// are refused when the log is replayed. While listed, an update keeps the Count and Rcount of its hold.
+				h := tk.holder(aLockId(op.Id))
+				if h == nil && len(tk.holders) > 0 {
+					h = tk.holders[0]
 				}
-				if op.F&fSHOW != 0 && op.F&fUPDATE != 0 {
-					op.F &^= fUPDATE // show+update addresses the oldest holder: an update of a live hold
-					pShortUpdExcluded++
+				if h != nil && (op.Cnt != h.count || op.Rc != h.rcount) {
+					op.Cnt, op.Rc = h.count, h.rcount
+					pUpdCountExcluded++
+				}
+			}
+			atGrant := func(h *mHold) bool { // was the hold written to the log when it was granted?
+				// (a hold granted next to other holders is not logged at its grant whatever its flags)
+				return h.first && (h.grantEf&0x1300 == 0x0100 || (h.grantEf&0x1300 == 0 && e.c.AofTime == 0))
+			}
+			if pKnownUpdCreate && relive && op.F&fUPDATE != 0 {
+				// same known finding, second trigger: a hold that is updated before its first record is written gets a
+				// creating record that carries the update flag (the sweep logs the command in force)
+				for _, h := range tk.holders {
+					if !atGrant(h) {
+						op.F &^= fUPDATE
+						pUpdCreateExcluded++
+						break
+					}
+				}
+			}
+			if (pKnownLateOrder || pKnownLateDepth) && relive {
+				// known findings C07:delayed-persistence-logs-later-terms-before-earlier-grant and
+				// C07:depth-lost-when-persisted-after-relock: holds whose first record is written by the sweep are logged
+				// with the terms and depth in force at that time, in sweep order, not grant order (a holder admitted
+				// earlier is refused at replay, or the depth is rebuilt wrong). While either is listed, a live hold is
+				// re-locked / updated only if every holder of the key was logged when it was granted; otherwise the
+				// request gets a fresh LockId.
+				all := true
+				for _, h := range tk.holders {
+					all = all && atGrant(h)
+				}
+				if len(tk.holders) == 1 && tk.holders[0].first {
+					all = true // a sole holder: no order between holders; its re-locks carry no aof timing flag (below)
+				}
+				if !all {
+					if op.F&fSHOW != 0 {
+						op.F &^= fUPDATE
+					}
+					if tk.holder(aLockId(op.Id)) != nil {
+						*fresh++
+						op.Id = 100 + *fresh
+					}
+					relive = false
+					pLateOrderExcluded++
+				}
+			}
+			if pKnownOldest && tk != nil && len(tk.holders) > 0 && !relive && op.Cnt != tk.holders[0].count {
+				// known finding C07:live-hold-refused-at-replay-after-older-holder-expired: the replay re-admits every
+				// hold under the Count of the oldest holder that is left. While listed, holders of one key use one Count.
+				op.Cnt = tk.holders[0].count
+				pOldestExcluded++
+			}
+			stripAof := false
+			if pKnownLateDepth && relive {
+				// known finding C07:depth-lost-when-persisted-after-relock: a hold that is first persisted through the
+				// update path (a re-lock / update carrying an aof timing flag) after it was re-locked gets a single
+				// record. While listed, re-locks and updates of a hold that was not persisted at its grant carry no aof
+				// timing flag (the sweep then persists it with one record per level).
+				for _, h := range tk.holders {
+					if !atGrant(h) {
+						stripAof = true
+					}
+				}
+				if stripAof {
+					pLateDepthExcluded++
 				}
 			}
 			switch x := pct(t, "pAofFlag"); {
+			case stripAof:
 			case x < 35:
 				op.EF |= 0x0100
 			case x < 45:
@@ -418,6 +542,13 @@ func aGenBurst(t *rapid.T, e *aEnv, db, key int, fresh *int) []aOp {
 		n = rapid.SampledFrom([]int{200, 230, 260}).Draw(t, "burstHugeN")
 	}
 	mixedPrio := pct(t, "burstPrio") < 50
+	latePrio := false
+	if !holders && pct(t, "burstFlood") < 30 {
+		// FIFO waiters beyond the in-line part of the wait container, then a waiter with a priority: the container
+		// is rebuilt as a priority queue
+		n = rapid.SampledFrom([]int{150, 270, 300}).Draw(t, "burstFloodN")
+		mixedPrio, latePrio = false, true
+	}
 	var ops []aOp
 	for i := 0; i < n; i++ {
 		*fresh++
@@ -426,7 +557,7 @@ func aGenBurst(t *rapid.T, e *aEnv, db, key int, fresh *int) []aOp {
 			op.Cnt, op.T, op.E = 0xffff, 0, rapid.SampledFrom([]int{3, 20, 50}).Draw(t, "burstE")
 		} else {
 			op.Cnt, op.T, op.E = rapid.SampledFrom([]int{0, 0, 1, 2}).Draw(t, "burstCount"), rapid.SampledFrom([]int{2, 5, 12, 40}).Draw(t, "burstT"), 5
-			if mixedPrio && i%3 == 0 {
+			if (mixedPrio && i%3 == 0) || (latePrio && i >= n-3) {
 				op.TF |= tfPRIO
 				op.Rc = rapid.IntRange(0, 3).Draw(t, "burstPrioV")
 			}
